@@ -84,6 +84,19 @@ def charge_rule(ctx: Ctx):
         if m is not None and isinstance(m["M_k"], ast.BinOp) and isinstance(m["M_k"].op, ast.Sub):
             ok_amount = (states.ndump(m["M_p"]) == price and states.ndump(m["M_k"].left) == f"{states.ndump(charged)}.energy[{et}]"
                          and states.ndump(m["M_k"].right) == f"{veh}.energy[{et}]")
+        if not ok_amount:
+            # the same formula written as an if-statement: this path's amount is the formula specialised by this path's tests
+            facts = p.facts()
+            has_price = None
+            for at, pol in facts:
+                if states.ndump(at) == price:
+                    has_price = pol
+            if has_price is True:
+                mm = flow.match("M_k * M_p", a_send)
+                ok_amount = (mm is not None and isinstance(mm["M_k"], ast.BinOp) and isinstance(mm["M_k"].op, ast.Sub) and states.ndump(mm["M_p"]) == price
+                             and states.ndump(mm["M_k"].left) == f"{states.ndump(charged)}.energy[{et}]" and states.ndump(mm["M_k"].right) == f"{veh}.energy[{et}]")
+            elif has_price is False:
+                ok_amount = flow.dump(a_send) in ("0.0", "0")
         ctx.check(ok_amount, "D1", "DU.same-value", "charge(): amount = energy delta (plug's energy type) x this station's price for this plug, 0 without a price", fn, sends[0].raw,
                   why_bad=f"amount = {states.ndump(a_send)[:260]}", construct="charge:amount-formula")
         # dispensed booking
